@@ -998,8 +998,12 @@ def _load_data_2(rec, context):
 @saver(Data, version=3)
 def _save_data_3(data, context):
     result = _save_data_2(data, context)
-    result['_key_joins'] = [[context.id(k), context.id(v0), context.id(v1)]
-                            for k, (v0, v1) in data._key_joins.items()]
+    # Version 3 records hold a single identifier on each side of a join.
+    # Joins are now kept as tuples of identifiers, so these are unpacked
+    # (joins on several identifiers only exist from version 4 onwards).
+    result['_key_joins'] = [[context.id(k), context.id(v0[0]), context.id(v1[0])]
+                            for k, (v0, v1) in data._key_joins.items()
+                            if len(v0) == 1 and len(v1) == 1]
     return result
 
 
@@ -1007,7 +1011,14 @@ def _save_data_3(data, context):
 def _load_data_3(rec, context):
     result = _load_data_2(rec, context)
     yield result
-    result._key_joins = dict((context.object(k), (context.object(v0), context.object(v1)))
+
+    def load_cid_tuple(cid):
+        # Version 3 records hold a single identifier on each side of a join,
+        # whereas joins are now kept as tuples of identifiers
+        cid = context.object(cid)
+        return cid if isinstance(cid, tuple) else (cid,)
+
+    result._key_joins = dict((context.object(k), (load_cid_tuple(v0), load_cid_tuple(v1)))
                              for k, v0, v1 in rec['_key_joins'])
 
 
